@@ -85,7 +85,8 @@ func runRace(sc raceScenario) (ops int64) {
 		fmt.Fprintln(os.Stderr, "engine:", err)
 		os.Exit(2)
 	}
-	defer w.CloseEngines()
+	// the backend's loops outlive the workload and cannot be stopped: never close the engine under them
+	defer w.AbandonEngines()
 	var kv storage.KvStorage = inner
 	if sc.Fault > 0 {
 		kv = &faultKV{KvStorage: inner, rng: rand.New(rand.NewSource(int64(sc.Seed))), rate: sc.Fault}
